@@ -26,6 +26,14 @@ static std::string run_case(const std::vector<std::string>& w)
         if (a != b) return "S-OVERLOADS-DIFFER " + hex(a) + " " + hex(b);
         return "S " + hex(a);
     }
+    if (w.size() == 3 && w[0] == "joini")
+    {
+        // elements that are not strings: rendered through the stringstream inside join
+        std::vector<long> l;
+        if (w[2] != ".") for (auto& e : split_on(w[2], ',')) l.push_back(std::atol(e.c_str()));
+        auto a = nitro::lang::join(l.begin(), l.end(), unhex(w[1]));
+        return "S " + hex(a);
+    }
     return "BADCASE";
 }
 int main(int argc, char** argv) { return vh::driver_main(argc, argv, run_case); }
